@@ -27,7 +27,7 @@ Steps(t) == Traces[t].steps
 Cl(name, ok) == [c |-> name, ok |-> ok]
 
 TextOf(id) == IF id \in 1..Len(TTab) THEN TTab[id] ELSE << <<>> >>
-Abs(s)     == St(TextOf(s.text), [s |-> s.liveS, p |-> s.liveP], <<s.rootObj, s.rootKind>>)
+Abs(s)     == St(TextOf(s.text), [s |-> s.liveS, p |-> s.liveP], s.rootObj)
 InSync(s)  == s.srcP # 0 /\ s.srcP = s.liveP
 
 Quad(e)     == e.quad
@@ -119,6 +119,22 @@ IndentChange(tx, new, R, p) ==
       tailCh == ~Blank(tail) /\ (firstPre # firstNew \/ (firstPre /\ firstNew /\ Indent(preT) # Indent(newT)))
   IN headCh \/ tailCh
 
+(* the line on which the edit starts had code and is left blank                *)
+BlanksLine(tx, new, R) ==
+  R[2] <= Indent(Line(tx, R[1])) /\ ~Blank(Line(tx, R[1])) /\ Blank(Line(new, R[1]))
+
+(* the edit ends in trivia that is now trailing: after the edit, the rest of its *)
+(* last line is blank or a comment, and the edit itself ends with a blank or     *)
+(* brings a comment                                                              *)
+TrailingWs(new, R, p) ==
+  LET k  == Len(p)
+      ll == Line(new, R[1] + k - 1)
+      c1 == IF k = 1 THEN R[2] + Len(p[1]) ELSE Len(p[k])
+      rest == SubSeq(ll, c1 + 1, Len(ll))
+  IN /\ (Blank(rest) \/ rest[Indent(rest) + 1] = 35)
+     /\ \/ (c1 >= 1 /\ c1 <= Len(ll) /\ IsWs(ll[c1]))
+        \/ HasAny(p, 35)
+
 Bslash(tx, new, R, p) ==
   \/ HasAny(p, 92)
   \/ \E i \in (R[1] - 1)..R[3] : LastIs(Line(tx, i), 92)
@@ -144,6 +160,8 @@ FxPart(tx, new, T, P, i, R, p) ==
   \o Flag(p # << <<>> >> /\ AllBlank(p), "blank")
   \o Flag(R[1] # R[3] \/ Len(p) > 1, "nl")
   \o Flag(IndentChange(tx, new, R, p), "indent")
+  \o Flag(BlanksLine(tx, new, R), "blankln")
+  \o Flag(TrailingWs(new, R, p), "tws")
   \o Flag(HasAny(p, 35), "hash")
   \o Flag(HasAny(p, 59) \/ HasAny(RectText(tx, R), 59), "semi")
   \o Flag(Bslash(tx, new, R, p), "bslash")
@@ -169,6 +187,7 @@ SkPart(P, N, i, valid) ==
           ELSE IF nm = 0 THEN "gone"
           ELSE IF \E j \in 1..Len(mid) : mid[j][9] < dep THEN "nonlocal"
           ELSE IF mid[1][9] # dep THEN "nonlocal"
+          ELSE IF P[i][1] \in {"ExceptHandler", "match_case"} /\ mid[1][1] # P[i][1] THEN "nonlocal"
           ELSE IF top > 1 THEN "split"
           ELSE "local"
 
